@@ -4,6 +4,7 @@ CONSTANTS
   LeaveFix = FALSE
   MaxResets = 1
   Faults = TRUE
+  StaleAcks = FALSE
   MaxProcs = 0
 VIEW view
 INVARIANT TypeOK
